@@ -248,7 +248,7 @@ func runC10(c *Ctx) {
 }
 
 func runC11(c *Ctx) {
-	c.res.Rule = "MnemonicToSeed on pairs with equal CPython-NFKD components: per language the 24-word cover sentences (every list word) in NFC, NFD, NFKC, full-width and with U+3000 separators vs the canonical NFKD/U+0020 spelling; (thorough) every single-code-point respelling of every list word packed 24 per sentence; passphrases Sigma^<=2 in NFC/NFD/NFKC/NFKD; long mark-run pairs. Oracle: equal 64 bytes within each pair and equal to the reference PBKDF2 of the NFKD spelling. distinct_nontrivial = distinct non-canonical (mnemonic, passphrase) spellings"
+	c.res.Rule = "MnemonicToSeed on pairs with equal CPython-NFKD components: per language the 24-word cover sentences (every list word) in NFC, NFD, NFKC, full-width and with U+3000 separators vs the canonical NFKD/U+0020 spelling; (thorough) every single-code-point respelling of every list word packed 24 per sentence; passphrases Sigma^<=2 in NFC/NFD/NFKC/NFKD; every assigned code point whose NFKD differs from itself vs its NFKD form, alone, as passphrase and as mnemonic (quick: 1/2 and 1/4 slices; Hangul every 97th); long mark-run pairs. Oracle: equal 64 bytes within each pair and equal to the reference PBKDF2 of the NFKD spelling. distinct_nontrivial = distinct non-canonical (mnemonic, passphrase) spellings"
 	c.Assume("CPython unicodedata (Unicode 14) decides which strings have equal NFKD forms")
 	type pj struct {
 		m1, p1, m2, p2 string
@@ -326,6 +326,18 @@ func runC11(c *Ctx) {
 		b := "a" + "\u0323" + strings.Repeat("\u0301", k)
 		jobs = append(jobs, pj{"x", a, "x", b, "mark run passphrase"}, pj{a, "", b, "", "mark run mnemonic"})
 	}
+	// every assigned code point that NFKD changes vs its NFKD form, alone
+	nSingle := 0
+	for i, d := range c.decompSlice() {
+		if c.Thorough || i%2 == 1 {
+			jobs = append(jobs, pj{"abandon", d.S, "abandon", d.NFKD, "single code point passphrase"})
+			nSingle++
+		}
+		if c.Thorough || i%4 == 0 {
+			jobs = append(jobs, pj{d.S, "", d.NFKD, "", "single code point mnemonic"})
+			nSingle++
+		}
+	}
 	// sanity: the oracle must agree that both members have equal NFKD
 	var chk []string
 	for _, j := range jobs {
@@ -362,7 +374,7 @@ func runC11(c *Ctx) {
 				map[string]interface{}{"kind": "seed", "mnemonic": hs(j.m2), "passphrase": hs(j.p2), "expected": hx(want)})
 		}
 	})
-	c.SetExtra("pairs", map[string]int{"whole_sentences": nWhole, "single_code_point_sentences": nVar, "passphrase_forms": nPass, "mark_runs": 8})
+	c.SetExtra("pairs", map[string]int{"whole_sentences": nWhole, "single_code_point_sentences": nVar, "passphrase_forms": nPass, "mark_runs": 8, "single_code_points": nSingle})
 	c.AddScope("cover sentences x forms, passphrase forms, mark runs", int64(len(jobs)), true, "single-code-point respellings only in the thorough tier")
 	c.mu.Lock()
 	c.res.Distinct = ds.Len()
